@@ -891,3 +891,158 @@ def c16(scn):
                 if (c.O.get(key) or ["?"])[0] != "err":
                     fails.append(("snapshot_mutators_refused", "%s on snapshot graph %s was not refused: %s" % (what, nm, c.O.get(key))))
     return fails[:20]
+
+
+# ----------------------------------------------------------------------------- C15
+
+def c15(scn):
+    """basin graph = lowest passes between adjacent basins; tree = minimum spanning tree over
+    them (weight compared exactly with an independent Kruskal); orientation away from the root"""
+    fails = []
+    topo = Topo(scn)
+    n = topo.n
+    last = None
+    weights_seen = {}
+    for call in scn.calls:
+        if call.cmd == "update" and call.O.get("update") == ["ok"]:
+            last = call
+            weights_seen = {}
+        if call.cmd != "bgraph" or last is None or "bg_edges" not in call.O:
+            continue
+        mask, seeds, ops, _ = env_of(last, n)
+        g = GraphView(last, n)
+        if not g.ok or any(c != 1 for c in g.rcount):
+            continue
+        f = [unhx(x) for x in call.i("bg_elev")]
+        outlets = [int(x) for x in call.O["bg_outlets"]]
+        base = set(seeds)
+        # labels by following receivers
+        lab = [None] * n
+        oidx = {o: k for k, o in enumerate(outlets)}
+        for i in range(n):
+            if mask[i]:
+                continue
+            j, steps = i, 0
+            while g.recv[j][0] != j and steps <= n:
+                j = g.recv[j][0]
+                steps += 1
+            lab[i] = oidx.get(j)
+        nb = len(outlets)
+        inner = [outlets[k] not in base for k in range(nb)]
+        outer = [k for k in range(nb) if not inner[k]]
+        ev = call.O["bg_edges"]
+        edges = []
+        for k in range(0, len(ev), 6):
+            edges.append((int(ev[k]), int(ev[k + 1]), int(ev[k + 2]), int(ev[k + 3]), unhx(ev[k + 4]), unhx(ev[k + 5])))
+        tree = [int(x) for x in call.O["bg_tree"]]
+        # expected lowest passes
+        want = {}
+        for i in range(n):
+            if mask[i] or lab[i] is None or not inner[lab[i]]:
+                continue
+            for j, d in topo.nbrs.get(i, []):
+                if mask[j] or lab[j] is None or lab[j] == lab[i]:
+                    continue
+                key = (min(lab[i], lab[j]), max(lab[i], lab[j]))
+                w = max(f[i], f[j])
+                if key not in want or w < want[key]:
+                    want[key] = w
+        root = None
+        if outer:
+            # the root is the first outer basin in bottom-up order = smallest label among outer ones
+            root = min(outer)
+        got = {}
+        root_edges = set()
+        for (a, b, p0, p1, pe, pl) in edges:
+            key = (min(a, b), max(a, b))
+            if p0 == -1 and p1 == -1:
+                root_edges.add(key)
+                continue
+            if key in got:
+                fails.append(("connect_one_edge_per_pair", "basins %s joined by two edges" % (key,)))
+            got[key] = pe
+            # the pass nodes realise the weight
+            if not (0 <= p0 < n and 0 <= p1 < n) or max(f[p0], f[p1]) != pe or {lab[p0], lab[p1]} != {a, b} or \
+                    not any(j == p1 and bits(d) == bits(pl) for j, d in topo.nbrs.get(p0, [])):
+                fails.append(("connect_pass_nodes", "edge %s: pass (%d,%d) elevation %r length %r is not a neighbour pair of the two basins realising the weight" % (key, p0, p1, pe, pl)))
+        if got.keys() != want.keys():
+            fails.append(("connect_lowest_pass", "edges between basin pairs %s, adjacency gives %s" % (sorted(set(got) ^ set(want))[:4], len(want))))
+        else:
+            for k_ in want:
+                if want[k_] != got[k_]:
+                    fails.append(("connect_lowest_pass", "basins %s: edge weight %r but the lowest pass is %r" % (k_, got[k_], want[k_])))
+                    break
+        want_root = set((min(root, o), max(root, o)) for o in outer if o != root) if root is not None else set()
+        if root_edges != want_root:
+            fails.append(("connect_outer_to_root", "root edges %s vs %s" % (sorted(root_edges), sorted(want_root))))
+        # tree: spanning the component of the root, acyclic, minimum weight
+        if root is None:
+            if tree:
+                fails.append(("tree_spans_root_component", "no outer basin but the tree has %d edges" % len(tree)))
+            continue
+        adj = {}
+        for (a, b, *_r) in edges:
+            adj.setdefault(a, []).append(b)
+            adj.setdefault(b, []).append(a)
+        comp = {root}
+        todo = [root]
+        while todo:
+            x = todo.pop()
+            for y in adj.get(x, []):
+                if y not in comp:
+                    comp.add(y)
+                    todo.append(y)
+        if len(set(tree)) != len(tree) or any(t < 0 or t >= len(edges) for t in tree):
+            fails.append(("tree_edges_valid", "%s" % tree[:10]))
+            continue
+        if len(tree) != len(comp) - 1:
+            fails.append(("tree_spans_root_component", "%d tree edges for %d basins reachable from the root" % (len(tree), len(comp))))
+            continue
+        # acyclic + connected: union-find
+        par = {}
+
+        def find(x):
+            while par.setdefault(x, x) != x:
+                par[x] = par[par[x]]
+                x = par[x]
+            return x
+        cyc = False
+        for t in tree:
+            a, b = find(edges[t][0]), find(edges[t][1])
+            if a == b:
+                cyc = True
+            par[a] = b
+        if cyc or any(find(x) != find(root) for x in comp):
+            fails.append(("tree_spans_root_component", "tree has a cycle or misses a basin"))
+            continue
+        # minimum weight (exact): Kruskal over the component's edges
+        F = Fraction
+        tw = sum(F(edges[t][4]) for t in tree)
+        par = {}
+        mw = F(0)
+        for (a, b, p0, p1, pe, pl) in sorted((e for e in edges if e[0] in comp), key=lambda e: e[4]):
+            ra, rb = find(a), find(b)
+            if ra != rb:
+                par[ra] = rb
+                mw += F(pe)
+        if tw != mw:
+            fails.append(("tree_minimum_weight", "%s tree weight %r, minimum spanning weight %r" % (call.toks[1], float(tw), float(mw))))
+        weights_seen[call.toks[1]] = tw
+        if len(set(weights_seen.values())) > 1:
+            fails.append(("kruskal_boruvka_equal_weight", "%s" % {k: float(v) for k, v in weights_seen.items()}))
+        # orientation: every tree edge points away from the root
+        depth = {root: 0}
+        tadj = {}
+        for t in tree:
+            tadj.setdefault(edges[t][0], []).append((edges[t][1], t))
+            tadj.setdefault(edges[t][1], []).append((edges[t][0], t))
+        todo = [root]
+        while todo:
+            x = todo.pop()
+            for y, t in tadj.get(x, []):
+                if y not in depth:
+                    depth[y] = depth[x] + 1
+                    todo.append(y)
+                    if edges[t][0] != x or edges[t][1] != y:
+                        fails.append(("orient_from_root", "tree edge %d is (%d -> %d) but the root side is %d" % (t, edges[t][0], edges[t][1], x)))
+    return fails[:20]
